@@ -4051,9 +4051,14 @@ class PartitionTreeBuilder:
                 parts=parts,
                 **partition_opts,
             )
+            groups = separate(leaves, membership)
+            if len(groups) == len(leaves):
+                # partitioner made no progress (e.g. only disconnected terms
+                # remain) -> contract whatever is left directly
+                break
             leaves = [
                 tree.contract_nodes(group, check=check, optimize=sub_optimize)
-                for group in separate(leaves, membership)
+                for group in groups
             ]
 
         if len(leaves) > 1:
